@@ -1,6 +1,8 @@
 import MosnVerif.Lemmas.StreamTable
 import MosnVerif.Lemmas.Correlate
 import MosnVerif.Model.StreamTableSpec
+import MosnVerif.Lemmas.DispatchCtx
+import MosnVerif.Model.DispatchCtxSpec
 /-!
 # C02 — request/response correlation on an xprotocol client stream connection (property theorems only)
 
@@ -331,5 +333,75 @@ example : let s := reachE .bolt 0 [.request 50 1 true, .forward 0]
 example : applyOps false 7 9 0 [.copyRequestId] = 9 ∧ applyOps false 7 9 0 [.setStreamId] = 7 := by decide
 
 end EndToEnd
+
+/-! ## per-frame isolation on the server stream connection (`streamConn.Dispatch`, Model/DispatchCtx.lean)
+
+A request is handed to its receiver together with the stream-level context it was decoded with; the receiver (the
+proxy's worker) reads frame, stream and context AFTER `Dispatch` has gone on.  `genShape` is the call structure of the
+loop as regenerated from conn.go on this run (is `ctxManager.Get()` a statement of the loop? behind which stream types
+is `ctxManager.Next()` reached?). -/
+section DispatchContext
+open MosnVerif.Model.DispatchCtx
+
+/-- the regenerated loop fetches the context inside the loop and calls `Next` behind request, one-way and response
+frames alike (this is the statement that stops checking when the loop is restructured) -/
+theorem dispatch_shape_per_frame : genShape.perFrame := by decide
+
+/-- **frame_context_isolated**: for EVERY chunking (list of `Dispatch` calls, any number of frames per call) and every
+frame sequence (requests, one-ways, responses, heartbeats; any ids and tokens, equal ones included), whether or not the
+codec pools its frame objects in the context: every receiver reads back exactly the id, headers/body token, stream id
+and raw bytes of ITS OWN frame; no context is used by two frames; no context is held by two receivers (none is
+released twice). -/
+theorem frame_context_isolated (pf : Bool) (calls : List (List Frame)) :
+    Isolated genShape pf (run genShape pf calls) :=
+  isolated_of_inv (inv_run dispatch_shape_per_frame pf calls)
+
+/-- no message mixes exchanges, at every moment: what the receivers hold after ANY prefix of the reads is the list of
+their own frames (the delivered requests are exactly the request / one-way frames, each once, in order) -/
+theorem receivers_see_own_frames (pf : Bool) (calls : List (List Frame)) :
+    views genShape pf (run genShape pf calls) = (calls.flatten.filter (·.kind.delivers)).map own :=
+  views_eq dispatch_shape_per_frame pf calls
+
+/-- the executable predicate of the `ctx` cases holds of the model's output (snapshots after each call, at the end,
+context classes, heartbeat acknowledgements) -/
+theorem ctx_spec_holds_on_model (pf : Bool) (calls : List (List Frame)) :
+    specCtx calls.flatten (runA genShape pf init [] calls).2 (views genShape pf (runA genShape pf init [] calls).1)
+      (deliveredClasses (runA genShape pf init [] calls).1) (runA genShape pf init [] calls).1.acks = true := by
+  have hA := runA_eq dispatch_shape_per_frame pf calls init [] (inv_init _ _) (by simp [Model.DispatchCtx.init])
+  have hr : List.foldl (dispatch genShape pf) init calls = run genShape pf calls := rfl
+  rw [hA.1, hA.2, hr]
+  have hi := inv_run dispatch_shape_per_frame pf calls
+  have hd := run_delivered genShape pf calls
+  have hown : expect = own := rfl
+  have hlen : (deliveredClasses (run genShape pf calls)).length = (calls.flatten.filter (·.kind.delivers)).length := by
+    rw [← hd.1]; simp [deliveredClasses]
+  simp only [specCtx, views_of_inv hi, hd.1, hd.2, hown, hlen, List.length_map, beq_self_eq_true, Bool.true_and,
+    Bool.and_true, decide_eq_true_eq]
+  exact classes_nodup hi
+
+/-! ### non-vacuity, and what the two seeded restructurings do -/
+def q1 : Frame := ⟨.request, 1, 101, 201⟩
+def q2 : Frame := ⟨.request, 2, 102, 202⟩
+def o3 : Frame := ⟨.oneway, 3, 103, 203⟩
+def h4 : Frame := ⟨.heartbeat, 4, 0, 204⟩
+def r5 : Frame := ⟨.response, 5, 105, 205⟩
+-- three requests, a heartbeat and a response in ONE read: four receivers... each with its own frame
+example : views genShape true (run genShape true [[q1, o3, h4, r5, q2]]) = [own q1, own o3, own q2] ∧
+    (run genShape true [[q1, o3, h4, r5, q2]]).decoded = [0, 1, 2, 3, 4] ∧ (run genShape true [[q1, o3, h4, r5, q2]]).acks = [4] := by decide
+-- `Get` hoisted out of the loop: one frame per read is fine ...
+example : Isolated hoistedShape true (run hoistedShape true [[q1], [q2], [o3]]) := by decide
+-- ... two requests completed by one read share a context: the first receiver finds the second request
+example : ¬ Isolated hoistedShape true (run hoistedShape true [[q1, q2]]) := by decide
+example : views hoistedShape true (run hoistedShape true [[q1, q2]]) = [own q2, own q2] := by decide
+-- also for a codec that does not pool its frames: stream id and raw bytes are the neighbour's
+example : views hoistedShape false (run hoistedShape false [[q1, q2]]) = [⟨some 1, some 101, some 2, some 2, some 202⟩, own q2] := by decide
+-- `Next` only behind Request frames: requests and responses alone are fine ...
+example : Isolated requestOnlyShape true (run requestOnlyShape true [[q1, q2], [q1]]) := by decide
+-- ... a one-way request shares its context with the frame behind it, in one read or in two, and is released twice
+example : ¬ Isolated requestOnlyShape true (run requestOnlyShape true [[o3], [q1]]) := by decide
+example : views requestOnlyShape true (run requestOnlyShape true [[o3], [q1]]) = [⟨some 1, some 101, none, some 1, some 201⟩, own q1] ∧
+    ((run requestOnlyShape true [[o3], [q1]]).delivered.map (·.ctx)) = [0, 0] := by decide
+
+end DispatchContext
 
 end MosnVerif.Props.C02
